@@ -3,7 +3,7 @@ CONSTANTS
   Apps <- AllApps
   Catching <- Both
   Verbs <- Verbs1
-  MCLines <- LinesAll
+  MCLines <- LinesEight
   Pres <- PresAll
   MaxListeners = 1
   ListenerKinds <- KindsFew
